@@ -763,6 +763,7 @@ class Plan(object):
 
 
 class OnionRun(object):
+    eq_spelling = None
     tor_version = '0.3.5.8'
 
     def __init__(self, sim):
@@ -993,7 +994,12 @@ class OnionRun(object):
 
     def emit(self, plan, kind, d, extra=''):
         tor = self.tor
-        first = '%s %s %s %s%s' % (kind, plan.addr, self.hs_authtype, d, extra)
+        if self.eq_spelling is None:
+            # older Tors write a directory's LongName as $fingerprint=nickname
+            self.eq_spelling = self.ch.chance(1, 4, 'hsdirspelling')
+            if self.eq_spelling:
+                self.sim.probe('hsdir-longname-with-equals-sign')
+        first = '%s %s %s %s%s' % (kind, plan.addr, self.hs_authtype, d.replace('~', '=') if self.eq_spelling else d, extra)
         sent = tor.emit('HS_DESC', first)
         self.sim.log('hs', plan.tag, kind, HSDIRS.index(d) if d in HSDIRS else d, 'sent' if sent else 'unsubscribed')
         if sent:
@@ -1686,6 +1692,11 @@ class C14Run(OnionRun):
                                                version=c['version'], single_hop=c['single_hop'])
         elif c['api'] == 'auth':
             clients = [(n, b) if b else n for n, b in c['clients']]
+            shape = ch.weighted([6, 1, 1, 1], 'clientsshape')
+            if shape:
+                # the clients are an iterable: a tuple, a generator or an iterator is as good as a list
+                sim.probe('auth-clients-given-as-' + ['', 'tuple', 'generator', 'iterator'][shape])
+                clients = [tuple(clients), (x for x in list(clients)), iter(list(clients))][shape - 1]
             if self.shared_auth == 'wanted':
                 self.shared_auth = O.AuthBasic(clients)
             auth = self.shared_auth if self.shared_auth is not None else O.AuthBasic(clients)
@@ -2065,6 +2076,9 @@ class C17Run(OnionRun):
         from txtorcon.onion import AuthBasic, AuthStealth
         c = self.c
         names = CLIENT_NAMES[:c['n_clients']]
+        if self.ch.chance(1, 4, 'namesshape'):
+            self.sim.probe('auth-clients-given-as-generator')
+            names = (n for n in list(names))
         if c['auth'] == 'basic':
             return AuthBasic(names)
         if c['auth'] == 'stealth':
